@@ -144,6 +144,19 @@ def run(tier, seed):
     submit(jobs, "env")
     log(f"[C19] family env-only: {len(jobs)} runs, {time.time() - t0:.0f}s")
 
+    # ---- family config-only: empty history, non-default tensor names (H3)
+    configs = [c for c in sorted(host_configs()) if c != "default"]
+    jobs = []
+    for n, tid in enumerate(tids):
+        for c in (configs if thorough else [configs[n % len(configs)]]):
+            env = dict(pool[rng.randrange(len(pool))], config=c)
+            steps = [{"op": "req", "t": tid}]
+            jobs.append({"kind": "c19", "seed": seed, "run": f"config-{c}-{tid}", "env": env,
+                         "params": DEFAULT_PARAMS, "steps": steps, "ref": ref_for(ref, steps),
+                         "timeout": 900})
+    submit(jobs, "config-only")
+    log(f"[C19] family config-only: {len(jobs)} runs, {time.time() - t0:.0f}s")
+
     # ---- systematic part
     jobs = []
     if thorough:
@@ -181,7 +194,6 @@ def run(tier, seed):
     # ---- seeded histories (default configuration) and configuration runs
     run_no = 0
     batch = 256 if thorough else 128
-    configs = [c for c in sorted(host_configs()) if c != "default"]
     while True:
         jobs = []
         for _ in range(batch):
@@ -257,12 +269,13 @@ def run(tier, seed):
         if k is not None:
             if skey not in seen:
                 log(f"KNOWN-FINDING: property={PROP} {k.get('what')}")
-            seen[skey] = seen.get(skey, 0) + 1
+                seen[skey] = {"signature": sig, "count": 0, "known": True}
+            seen[skey]["count"] += 1
             continue
         if skey in seen:
-            seen[skey] += 1
+            seen[skey]["count"] += 1
             continue
-        seen[skey] = 1
+        seen[skey] = {"signature": sig, "count": 1, "known": False}
         if len(reported) < 4:
             # the replay keeps the child-side class ("text"); the host-side class is noted
             child_v = next(x for x in res["violations"]
@@ -279,6 +292,8 @@ def run(tier, seed):
                 reported.append({"replay": path, "signature": sig})
                 exit_code = 1
         else:
+            log(f"VIOLATION property={PROP} replay=none (further distinct signature, not "
+                f"minimised) {sig}")
             exit_code = 1
     return finish(tier, seed, ref, all_jobs, all_results, families, t0, reported, exit_code,
                   trip, seen)
@@ -377,7 +392,7 @@ def finish(tier, seed, ref, jobs, results, families, t0, reported, exit_code, tr
                             "note": "no result depends on time"},
         "components": driver.REAL_STUB,
         "determinism_tripwire": trip,
-        "violation_signatures": sigs,
+        "violation_signatures": list(sigs.values()),
         "replays": reported,
         "explanation": "seeded histories of API requests from several logical clients sharing "
                        "one process image, under varied hash seed, Dummy base/count, heap skew, "
